@@ -57,7 +57,7 @@ impl Property for C17Prop {
         vec!["the consumer is a task that only awaits next(): it is re-polled only when the waker passed to poll_next is woken (or when the 60 s simulated bound expires)", "one subscription per run"]
     }
     fn expected_probes(&self) -> Vec<&'static str> {
-        vec!["valid_frame_behind_invalid_frame", "valid_frame_behind_lagged_item", "valid_frame_arrives_while_consumer_waits", "invalid_frame_arrives_while_consumer_waits", "invalid_frame_skipped", "lagged_consumed"]
+        vec!["valid_frame_behind_invalid_frame", "valid_frame_behind_lagged_item", "valid_frame_arrives_while_consumer_waits", "invalid_frame_arrives_while_consumer_waits", "invalid_frame_skipped", "lagged_consumed", "invalid_frame_storm"]
     }
     fn run(&self) {
         let mode = ctx::mode();
@@ -88,7 +88,19 @@ impl Property for C17Prop {
                     }
                     3 | 4 | 5 => {
                         // value 0 = faithful delivery
-                        match if invalid || overflow { ctx::choose("deliver.fault", 4) } else { 0 } {
+                        match if invalid || overflow { ctx::choose("deliver.fault", 5) } else { 0 } {
+                            4 if invalid => {
+                                // A storm of invalid frames arriving while the consumer is not
+                                // polling (e.g. a misbehaving peer): up to 40 in a row.
+                                let n = ctx::range("storm.len", 2, 40);
+                                ev!("overlay delivers a storm of {n} invalid frames");
+                                for _ in 0..n {
+                                    let (raw, kind) = invalid_frame(&mut w);
+                                    ctx::fault(kind);
+                                    w.deliver(raw, kind);
+                                }
+                                ctx::probe("invalid_frame_storm");
+                            }
                             1 | 2 if invalid => {
                                 let (raw, kind) = invalid_frame(&mut w);
                                 ctx::fault(kind);
